@@ -73,6 +73,13 @@ class GenCfg:
     std_signed_only: bool = False  # signed ints only of width 8/16/32/64 (big-endian emulation limit, see DESIGN C06)
 
 
+# Code points that are legal in schema text (comments, string constants) but special to some consumer: not "printable" for Python's
+# str.isprintable (separators, format and private-use characters), line separators for some tools, a byte order mark in the middle of a file.
+UNICODE_SPECIALS = ["\u00a0", "\u3000", "\u2028", "\u2029", "\u200b", "\ufeff", "\ue000", "\u00ad", "\u0085", "\ufffd", "\U0010ffff",
+                    "\u0301", "\u202e", "\x1f", "\x7f", "\x0c", "\U0001f600"]
+SPECIAL_STRINGS = ["10\u00a0EUR", "zero\u200bwidth", "bom\ufeffinside", "line\u2028sep\u2029para", "pua\ue000", "ideo\u3000space", "nel\u0085x",
+                   "soft\u00adhyphen", "rtl\u202eoverride", "max\U0010ffff", "ff\x0cfeed \x1f \x7f", "e\u0301 combining"]
+
 HOSTILE_COMMENTS = [
     "the drive is C:\\",
     "say \"\"\"hi\"\"\" twice \"\"\"",
@@ -90,6 +97,10 @@ HOSTILE_COMMENTS = [
     "ends with a quote \"",
     "\\",
     "<!-- html -->",
+    "no-break\u00a0space and zero\u200bwidth and ideographic\u3000space",
+    "private use \ue000 soft\u00adhyphen rtl\u202eoverride",
+    "a byte order mark \ufeff in the middle",
+    "next line \u0085 and form feed \x0c stay on this line",
 ]
 
 
@@ -316,7 +327,7 @@ class SchemaGen:
                 else:
                     # every supported escape occurs: position bookkeeping, lexing and literal emission all see them
                     v = rng.choice(["hello", "a b", "v1.2", "", "x_y-z", "line\nbreak", "two\n\nbreaks\n", "tab\there", 'dq"uote', "it's",
-                                    "back\\slash", "cr\rlf\n", "// not a comment", "{ } ; = '"])
+                                    "back\\slash", "cr\rlf\n", "// not a comment", "{ } ; = '"] + SPECIAL_STRINGS)
                 c = f.add(Const(self.pool.upper(), v))
                 if isinstance(v, int) and not isinstance(v, bool):
                     consts.append(c)
